@@ -75,10 +75,16 @@ Definition parse_ro (q : areq) : bool + areq :=
       else inr (merge_ro q o)
   end.
 
+(* a fault of the connection to the user agent while the answer is written (http.TimeoutHandler
+   after its time-out, reset stream, closed connection: ResponseWriter.Write fails or is short).
+   W_Early: status line and headers went out, the body is cut before its first HTML tag of interest;
+   W_Late: the body is cut somewhere behind the form tag (or not at all when it is short) *)
+Inductive wcut := W_None | W_Early | W_Late.
+
 Inductive op :=
-| Authorize (r : router) (q : areq)
+| Authorize (r : router) (q : areq) (w : wcut)
 | Login (k : nat)                                  (* k-th created request *)
-| Callback (r : router) (k : option nat) (f : cfault).  (* None: no id parameter *)
+| Callback (r : router) (k : option nat) (f : cfault) (w : wcut).  (* None: no id parameter *)
 
 (* stored auth request *)
 Record sreq := { s_client : string; s_uri : string; s_rt : string; s_mode : string;
@@ -90,6 +96,7 @@ Inductive out :=
 | ORedirect (frag : bool) (code : string) (target : string)  (* code "" = success *)
 | OForm (target : string)                (* 200 auto-submitting form *)
 | OFormBlocked                           (* form whose action html/template replaced *)
+| OUndelivered                           (* 200, the page was cut before any form: nothing to follow *)
 | ONone | OPanic | OOther.
 
 (* per-URI answers of net/url and html/template, recorded by the driver:
@@ -303,11 +310,35 @@ Section Handlers.
       end end
     end.
 
+  (* what reaches the user agent when the connection fails while the answer is written: status and
+     headers (so every 302 with its Location) always; of an error page only the status is observed;
+     a form_post page cut early carries no form. The handlers never look at the outcome of a write
+     before they change the store, and nothing of one answer is kept for the next: the store after
+     the step and every later answer are those of the fault-free run. *)
+  Definition deliver (w : wcut) (x : out) : out :=
+    match w, x with
+    | W_None, _ => x
+    | _, OPage s _ => OPage s ""
+    | W_Early, OForm _ => OUndelivered
+    | W_Early, OFormBlocked => OUndelivered
+    | _, _ => x
+    end.
+
   Definition step (st : list sreq) (o : op) : list sreq * out :=
     match o with
-    | Authorize r q => authorize r st q
+    | Authorize r q w => let '(st', x) := authorize r st q in (st', deliver w x)
     | Login k => (update_nth k mark_done st, ONone)
-    | Callback _ k f => callback st k f
+    | Callback _ k f w => let '(st', x) := callback st k f in (st', deliver w x)
+    end.
+
+  (* the write fault an operation carries, and the operation without it *)
+  Definition op_cut (o : op) : wcut :=
+    match o with Authorize _ _ w => w | Login _ => W_None | Callback _ _ _ w => w end.
+  Definition op_clear (o : op) : op :=
+    match o with
+    | Authorize r q _ => Authorize r q W_None
+    | Login k => Login k
+    | Callback r k f _ => Callback r k f W_None
     end.
 
   Fixpoint run (st : list sreq) (ops : list op) : list out :=
